@@ -1,6 +1,7 @@
 (* C03 model runner: one case per line on stdin, one result per line on stdout.
    <id> FR <n> <limit> <start> <lister> <nf> <filters> <nodes> [#replay]   findRoots (lister: 1 = ReferrerLister source)
    <id> FP <n> <x> <lister> <nf> <filters> <nodes> [#replay]      opts.FindPredecessors(x)
+   <id> FE <n> <limit> <start> <lister> <k> <nf> <filters> <nodes> [#replay]   findRoots, k-th source operation fails
    <id> AT <kind> <hexmat> <hexmcfg>                              fetchArtifactType
    <id> XC <resolves> <graphok> <tagok> <hexsrcref> <hexdstref>   ExtendedCopy wrapper
    filters: A0 | A <table> | N0 <hexkey> | N <hexkey> <table>;  table: hex=0|1,... or _
@@ -87,6 +88,20 @@ let () =
       (match find_roots (fuel_for src (nat_of_int n)) src fs (z_of_int (int_of_string limit)) node with
        | None -> Printf.printf "%s FUEL\n" id
        | Some roots ->
+         let ids = List.sort_uniq compare (List.map (fun d -> int_of_nat d.d_id) roots) in
+         Printf.printf "%s OK %s\n" id
+           (if ids = [] then "-" else String.concat "," (List.map string_of_int ids)))
+    | id :: "FE" :: n :: limit :: start :: lister :: k :: nf :: rest ->
+      (* findRoots with the k-th source operation failing *)
+      let n = int_of_string n in
+      let (fs, rest) = parse_filters (int_of_string nf) rest in
+      let src = source_of (parse_nodes n rest) (lister = "1") in
+      let node = { d_id = nat_of_int (int_of_string start); d_at = []; d_ann = None } in
+      (match find_roots_e (fuel_for src (nat_of_int n)) src fs (z_of_int (int_of_string limit)) node
+               (nat_of_int (int_of_string k)) with
+       | RFuel -> Printf.printf "%s FUEL\n" id
+       | RErr -> Printf.printf "%s ERR\n" id
+       | ROk roots ->
          let ids = List.sort_uniq compare (List.map (fun d -> int_of_nat d.d_id) roots) in
          Printf.printf "%s OK %s\n" id
            (if ids = [] then "-" else String.concat "," (List.map string_of_int ids)))
